@@ -10,7 +10,9 @@ from vlib import unitmodel as um
 from vlib.harness import Sub
 
 PROPERTY = "C07"
-RULE = ("comparison cases: six operators x rhs kind (Array, python number, numpy scalar float64/float32/int64, ndarray, Quantity with "
+RULE = ("exact cases: int64 Arrays of neighbouring integers around 0, 2**53, 2**60, 2**62 compared (six operators) with an Array, "
+        "Quantity, ndarray, numpy or python integer of the same unit, or standing on the right of an ndarray / numpy integer "
+        "(unscaled dimensionless data); oracle = python integer comparison.  comparison cases: six operators x rhs kind (Array, python number, numpy scalar float64/float32/int64, ndarray, Quantity with "
         "ndarray or python-scalar magnitude) x dtypes x "
         "broadcast shape pairs x unit pairs (same / compatible-different incl. scaled dimensionless such as cm/m, "
         "percent / incompatible); rhs values engineered around equality after conversion: b = a*ratio*(1+d), "
@@ -22,7 +24,9 @@ RULE = ("comparison cases: six operators x rhs kind (Array, python number, numpy
         "(the conversion mattered) in at least one element; distinct = distinct canonical JSON.")
 ASSUMPTIONS = [
     "the Array is the left operand (the statement: 'the right operand is converted to the left operand's unit'); an ndarray, "
-    "numpy scalar or Quantity on the left is dispatched by numpy / pint and is not generated",
+    "numpy scalar or Quantity on the left is dispatched by numpy / pint and is not generated - except, in the exact "
+    "sub-check, an ndarray / numpy integer on the left of an unscaled dimensionless integer Array, where no unit is involved "
+    "and the comparison is plain numpy",
     "a bare number / ndarray is a dimensionless quantity: comparing it with a dimensional Array must raise",
     "elements whose physical values differ by less than 1e-9 (64 eps for float32 operands: 1e-5) relative are not judged",
 ]
@@ -235,8 +239,65 @@ def _truth_tables():
     return out
 
 
+# ------------------------------------------------------------------ exact integers; a numpy object on the left
+exact_case_st = st.fixed_dictionaries({
+    "op": st.sampled_from(["<", "<=", ">", ">=", "==", "!="]),
+    # integers beyond 2**53 (identifiers, Hilbert keys): neighbours are distinct numbers only as integers
+    "base": st.sampled_from([2 ** 53, 2 ** 60, 2 ** 62, -(2 ** 55), 0]),
+    "ka": st.lists(st.integers(0, 6), min_size=1, max_size=5),
+    "kb": st.lists(st.integers(0, 6), min_size=5, max_size=5),
+    "unit": st.sampled_from(["dimensionless", "m", "g"]),
+    "bk": st.sampled_from(["A", "A", "num", "npi", "Q", "nd"]),
+    # the Array on the right of a numpy array / numpy scalar (unscaled dimensionless data: numbers are numbers)
+    "array_on_the_right": st.booleans(),
+})
+
+
+def exact_compare(case, r):
+    import operator
+    op = {"<": operator.lt, "<=": operator.le, ">": operator.gt, ">=": operator.ge, "==": operator.eq, "!=": operator.ne}[case["op"]]
+    n = len(case["ka"])
+    ai = [case["base"] + k for k in case["ka"]]
+    bk = case["bk"]
+    bi = [case["base"] + k for k in case["kb"][: (1 if bk in ("num", "npi") else n)]]
+    unit = case["unit"]
+    swap = case["array_on_the_right"] and bk in ("nd", "npi")
+    if swap or bk in ("num", "npi", "nd"):
+        unit = "dimensionless"
+    a = osyris.Array(values=np.array(ai, dtype=np.int64), unit=unit)
+    if bk == "A":
+        b = osyris.Array(values=np.array(bi, dtype=np.int64), unit=unit)
+    elif bk == "Q":
+        b = np.array(bi, dtype=np.int64) * osyris.units(unit)
+    elif bk == "nd":
+        b = np.array(bi, dtype=np.int64)
+    elif bk == "npi":
+        b = np.int64(bi[0])
+    else:
+        b = int(bi[0])
+    r.label("exact_" + bk, "op_" + case["op"])
+    if swap:
+        r.label("numpy_object_on_the_left")
+    big = abs(case["base"]) >= 2 ** 53
+    r.nontrivial(big)
+    want = [bool(op(y, x) if swap else op(x, y)) for x, y in zip(ai, bi * (n if len(bi) == 1 else 1))]
+    with warnings.catch_warnings(), np.errstate(all="ignore"):
+        warnings.simplefilter("ignore")
+        try:
+            res = op(b, a) if swap else op(a, b)
+        except Exception as e:
+            r.bad(["exact", "raises", case["op"], bk, type(e).__name__], f"{e!r}; case {case}")
+            return
+    got = np.asarray(getattr(res, "values", res))
+    if got.shape != (n,) or got.dtype != np.dtype(bool) or got.tolist() != want:
+        r.bad(["exact", "numpy-object-on-the-left" if swap else "values", case["op"], bk],
+              f"{'b op a' if swap else 'a op b'} with a = {ai} [{unit}] (int64), b = {bi} ({bk}): got {got.tolist()}, the integers give {want}")
+
+
 def subs(ctx):
     return [
+        Sub("exact_compare", exact_compare, strategy=exact_case_st, quick=600, thorough=6000,
+            required={"numpy_object_on_the_left": 0.1}),
         Sub("truth_tables", logic, cases=_truth_tables()),
         Sub("compare", compare, strategy=cmp_case_st(), quick=3000, thorough=20000,
             required={"incompatible": 0.05, "different_units": 0.15}),
